@@ -11,10 +11,11 @@ pub struct TextCase {
     pub kind: &'static str,
 }
 
-/// A TXT record "x. 1 IN TXT <n bytes>" whose wire form is exactly `total` bytes long (14..=269), to land an
+/// A TXT record "x. 1 IN TXT <n bytes>" whose wire form is exactly `total` bytes long (15..=269), to land an
 /// insertion on an exact packet size.
 pub fn txt_of_wire_len(total: usize) -> Option<TextCase> {
-    if !(14..=14 + 255).contains(&total) {
+    // (at least one byte of text: the library's grammar has no empty quoted string)
+    if !(15..=14 + 255).contains(&total) {
         return None;
     }
     let n = total - 14;
